@@ -1,6 +1,12 @@
 use arc_swap::{ArcSwap, ArcSwapOption};
 use never::Never;
-use std::{iter, sync::Arc};
+use std::{
+    iter,
+    sync::{
+        atomic::{AtomicBool, Ordering as AtomicOrdering},
+        Arc,
+    },
+};
 
 use crate::{
     utils::{
@@ -189,11 +195,14 @@ where
         let sinks = Arc::clone(&sinks);
         let source_talkback = Arc::clone(&source_talkback);
         if let Message::Handshake(sink) = message {
+            // set once this sink is no longer attached: it left, or it was told that the source ended
+            let detached = Arc::new(AtomicBool::new(false));
             sinks.rcu({
                 let sink = Arc::clone(&sink);
+                let detached = Arc::clone(&detached);
                 move |sinks| {
                     let mut sinks = (**sinks).clone();
-                    sinks.push(Arc::clone(&sink));
+                    sinks.push((Arc::clone(&sink), Arc::clone(&detached)));
                     sinks
                 }
             });
@@ -223,19 +232,25 @@ where
                                     call!(source_talkback, Message::Pull, "to source: {message:?}");
                                 },
                                 Message::Error(_) | Message::Terminate => {
-                                    {
-                                        let i = sinks.load().iter().position({
-                                            let sink = Arc::clone(&sink);
-                                            move |s| Arc::ptr_eq(s, &sink)
-                                        });
-                                        if let Some(i) = i {
-                                            sinks.rcu(move |sinks| {
-                                                let mut sinks = (**sinks).clone();
-                                                sinks.splice(i..i + 1, iter::empty());
-                                                sinks
-                                            });
-                                        }
+                                    if detached.swap(true, AtomicOrdering::AcqRel) {
+                                        // already gone, or the source has ended: nothing to undo
+                                        return;
                                     }
+                                    let i = sinks.load().iter().position({
+                                        let sink = Arc::clone(&sink);
+                                        move |(s, _)| Arc::ptr_eq(s, &sink)
+                                    });
+                                    let i = match i {
+                                        Some(i) => i,
+                                        // not in the list: the source is ending right now and this
+                                        // sink has merely not been told yet
+                                        None => return,
+                                    };
+                                    sinks.rcu(move |sinks| {
+                                        let mut sinks = (**sinks).clone();
+                                        sinks.splice(i..i + 1, iter::empty());
+                                        sinks
+                                    });
                                     if sinks.load().is_empty() {
                                         let source_talkback = source_talkback.load();
                                         let source_talkback = source_talkback
@@ -274,14 +289,17 @@ where
                                     // fan-out starts a fresh subscription instead of joining the
                                     // dead one
                                     let ended = sinks.swap(Arc::new(vec![]));
-                                    for s in &**ended {
-                                        call!(s, message.clone(), "to sink: {message:?}");
+                                    for (s, detached) in &**ended {
+                                        // skip sinks that left while this last fan-out was in progress
+                                        if !detached.swap(true, AtomicOrdering::AcqRel) {
+                                            call!(s, message.clone(), "to sink: {message:?}");
+                                        }
                                     }
                                 } else {
-                                    for s in &**sinks.load() {
+                                    for (s, detached) in &**sinks.load() {
                                         // skip sinks that detached (or were completed by a nested
                                         // emission) while this fan-out was in progress
-                                        if sinks.load().iter().any(|attached| Arc::ptr_eq(attached, s)) {
+                                        if !detached.load(AtomicOrdering::Acquire) {
                                             call!(s, message.clone(), "to sink: {message:?}");
                                         }
                                     }
